@@ -101,7 +101,10 @@ func runHistory(h *Harness, tier string, cfg int, c Config, hist []string, check
 		if n == 0 {
 			firstKey, firstObs = parts[0], parts[1]
 		} else if parts[0] != firstKey || parts[1] != firstObs {
-			return "the result of the last operation depends on map iteration order: state/observation differ between two orders"
+			// The step's outcome depends on the order in which a map was visited. That is not a violation
+			// of anything (the per-step oracle has judged every order on its own); the search continues
+			// from the first order's successor and the evidence counts such steps.
+			OrderDependentSteps++
 		}
 		n++
 		return ""
@@ -126,6 +129,10 @@ func runHistory(h *Harness, tier string, cfg int, c Config, hist []string, check
 	x.Steps = ex.Steps
 	return firstKey, firstObs, viol, x
 }
+
+// OrderDependentSteps counts last operations whose resulting state or observation differed between two
+// map-visiting orders (per worker process; reported in the job results).
+var OrderDependentSteps int64
 
 //go:norace
 func setRes(p *string, v string) { *p = v }
@@ -178,7 +185,11 @@ func RunJob(h *Harness, tier string, job hk.Job, deadline time.Time) *hk.Result 
 			return res
 		}
 		nh := append(append([]string(nil), hist...), c.Alphabet[a])
+		odBefore := OrderDependentSteps
 		key, obs, viol, x := runHistory(h, tier, job.Scn, c, nh, false)
+		if OrderDependentSteps > odBefore {
+			res.Add("map_order_dependent_steps", 1)
+		}
 		res.Add("execs", 1)
 		res.Add("steps", int64(x.Steps)+int64(len(nh)))
 		res.Add("max_depth", int64(len(nh)))
